@@ -101,6 +101,27 @@ M = {
  "C18_update_msg_rejects_zero_height": ("C18", "a TSS update delivered as a transaction", "C18 quick (C18.ValidUpdateSucceeds)", "caught at first attempt"),
  "C19_bsc_iteration_key_drops_revision": ("C19", "a BSC consensus state under a non-zero revision number", "C19 quick (C19.ConsKeyParseBack)", "missed by the first version (revision 0 only); Codec family 'cons' added"),
  "C20_sweep_pool_when_nothing_exceeds": ("C20", "a pool holding a denomination that is not on the reward list when the rewarded one runs dry", "C20 quick (Release)", "caught at first attempt"),
+ # round 6 (sub-agents were told rounds 1-5)
+ "C01_recv_cache_not_committed_on_callback_error": ("C01", "a receive whose destination callback fails at the CallPacket level, then the same receive again", "C01 quick (C01.RecvOnce) and C05 quick (C05.AckWritten)", "caught at first attempt"),
+ "C02_eth_storage_hash_unauthenticated": ("C02", "an Ethereum counterparty: genuine account proof with a storage root and storage proof of a made-up trie", "C08 quick (C08.AcceptedOnlyIfAllRight, account class forgedstorage); the C02 check uses Tendermint counterparties", "caught at first attempt (by C08)"),
+ "C03_hook_ignores_log_emitter": ("C03", "a third-party contract emitting a PacketSent log with the next send sequence", "C03 quick (C03.Conservation) and C04 quick (C04.CommitIsSent)", "missed by the first version; SendFake action added"),
+ "C04_sequence_memoized_outside_store": ("C04", "one transaction sending to a known and then to an unknown destination (rolled back), then an ordinary send", "C04 quick (C04.SeqAgree)", "caught at first attempt"),
+ "C05_fee_paid_only_on_success": ("C05", "an error acknowledgement of a packet carrying a fee", "C05 quick (C05.FeesHeld)", "caught at first attempt"),
+ "C06_tss_update_skips_registry": ("C06", "MsgUpdateClient for a TSS client from the TSS account while it is not registered for that chain", "C06 quick (C06.OnlyRegistered)", "caught at first attempt"),
+ "C07_default_trust_level_used": ("C07", "a client configured with trust level 2/3 and a non-adjacent header signed by between 1/3 and 2/3 of the trusted set", "C07 quick (C07.AcceptedIsSound, trust-level-2/3 leg)", "missed by the first version (level 1/3 only); second leg added"),
+ "C08_bsc_storage_key_suffix_match": ("C08", "a storage key shortened to a suffix of the derived slot with a genuine proof of the slot it left-pads to", "C08 quick (C08.AcceptedOnlyIfAllRight, storage class suffixkey)", "missed by the first version; class added"),
+ "C09_difficulty_compared_mod_2_64": ("C09", "a difficulty wider than 64 bits whose low 64 bits are 1 or 2", "C09 quick (C09.SignerEligible)", "missed by the first version (difficulties 1 and 2 only); classes 101/102 added"),
+ "C10_prune_first_expired_not_earliest": ("C10", "a fork history in which a young header is re-pointed below expired states of the other branch, trusting period elapsing in between", "none", "not caught: the Ethereum client's pruning of expired consensus states is not exercised (no clock in ETHClient.tla); recorded as a limit in DESIGN.md 9.7"),
+ "C11_ibc_hook_ignores_pair_switch": ("C11", "an ICS-20 packet for a registered voucher whose pair governance disabled", "C11 quick (C11.HookHonoursSwitches, ICS-20 leg)", "missed by the first version (C16 does not state the gate); ICS-20 leg of C11 added"),
+ "C12_addcoin_sorts_denoms": ("C12", "AddCoin of a denomination that sorts before the pair's first one", "C12 quick (C12.Findable)", "caught at first attempt"),
+ "C13_rvesting_export_newcoins": ("C13", "reward-vesting parameters with a zero amount (or unsorted / repeated denominations), then an export", "C13 quick (C13.Validates / RoundTripLossless on the reward-vesting behaviours)", "missed by the first version (reward-vesting states not round-tripped); world added"),
+ "C14_ethash_cache_on_disk": ("C14", "a node whose temp directory holds a damaged ethash cache file", "C14 quick (C14.SameResults between replica A and the third replica)", "missed by the first version (no valid seals, clean temp directories); main-net test headers and a third replica on a zeroed copy of replica A's temp directory added"),
+ "C15_bsc_extra_min_length_seal_only": ("C15", "a BSC header whose extra data has 65..96 bytes and a valid seal", "C15 quick (C15.NoPanicInHandler, extra class sealonly)", "missed by the first version; class added"),
+ "C16_gauge_int64_of_amount": ("C16", "a received amount of 2^63 or more for a registered, enabled voucher", "C16 quick (C16.AckCommitted)", "missed by the first version (amounts 1 and 2); amounts in units of 2^64+1"),
+ "C17_gov_keeper_plain_bank": ("C17", "a proposal whose deposits are burned (no quorum / veto)", "C17 quick (C17.SupplyUnchanged, C17.BurnToCollector at Expire)", "caught at first attempt"),
+ "C18_upgrade_keeps_existing_consensus": ("C18", "an upgrade at a height that already holds a consensus state with other content", "C18 quick (C18.InstallsExactly)", "missed by the first version (one content per height); content class altroot added"),
+ "C19_trimright_cutset_on_destination": ("C19", "a destination chain name ending in one of s, e, q, u, n, c", "C19 quick (C19.KeyParseBack) and C13 quick", "caught at first attempt"),
+ "C20_gauge_int64_of_vested": ("C20", "a block releasing more than 2^63-1 base units", "C20 quick (NeverHalts)", "missed by the first version (amounts 0..3); amounts in units of 2^64+1"),
 }
 
 
@@ -108,6 +129,7 @@ def main():
     R3 = set(l.split()[0] for l in open(os.path.join(ROOT, "seeded", "round3.list")) if l.strip())
     R4 = set(l.split()[0] for l in open(os.path.join(ROOT, "seeded", "round4.list")) if l.strip())
     R5 = set(l.split()[0] for l in open(os.path.join(ROOT, "seeded", "round5.list")) if l.strip())
+    R6 = set(l.split()[0] for l in open(os.path.join(ROOT, "seeded", "round6.list")) if l.strip())
     for n, (p, needs, by, hist) in M.items():
         d = os.path.join(ROOT, "seeded", n)
         if not os.path.isdir(d):
@@ -119,7 +141,7 @@ def main():
                    "what_was_run": "bin/confirmseed in the scratch worktree (build ok, demonstration fails with / passes without the change, repository suite 414/414); "
                                    "bin/tryall (git -C /repo apply, quick check, git checkout): " + ts[:400],
                    "origin": "independent sub-agent given only the property text, the list of already known changes and a scratch worktree (round %d)"
-                             % (5 if n in R5 else 4 if n in R4 else 3 if n in R3 else 2)},
+                             % (6 if n in R6 else 5 if n in R5 else 4 if n in R4 else 3 if n in R3 else 2)},
                   open(os.path.join(d, "meta.json"), "w"), indent=1)
     print("ok")
 
